@@ -146,7 +146,7 @@ __CPROVER_ensures(self->_writer_pos == OLD(self->_writer_pos) + n && self->_atom
 __CPROVER_requires(FRESHQ(self) && INV(self))
 __CPROVER_assigns(self->_writer_pos_cache, self->g_cons_hb, self->g_cons_lb, PROD_FIELDS(self))
 __CPROVER_ensures(INV(self)) /*@ C01 "consumer step keeps the queue invariant (cache equals acquire frontier)" */
-__CPROVER_ensures(RET == (self->_writer_pos_cache == self->_reader_pos)) /*@ C01 "empty() is true exactly when the consumer sees no unread byte" */
+__CPROVER_ensures(RET == (self->_writer_pos_cache == self->_reader_pos)) /*@ C01,C07,C17 "empty() is true exactly when the consumer sees no unread byte (what the exit drain and the logger clean-up ask before they stop / destroy)" */
 __CPROVER_ensures(D(self->_writer_pos_cache, self->_reader_pos) <= D(self->g_cons_hb, self->_reader_pos)) /*@ C01 "the consumer is never shown bytes above its acquire frontier (not visible before commit)" */
 __CPROVER_ensures(D(self->g_cons_lb, self->_reader_pos) >= D(OLD(self->g_cons_lb), self->_reader_pos)) /*@ C01 "the coherence bound only grows" */
 __CPROVER_ensures(D(self->_writer_pos_cache, self->_reader_pos) >= D(OLD(self->_writer_pos_cache), self->_reader_pos) && D(self->_writer_pos_cache, self->_reader_pos) <= self->_capacity) /*@ C03 "the bytes visible to the consumer never shrink by looking again and never exceed the capacity (empty)" */
@@ -391,7 +391,7 @@ UNITS = [
     method_unit('finish_write', {'C01'}),
     method_unit('commit_write', {'C01'}),
     method_unit('finish_and_commit_write', {'C01', 'C08'}),
-    method_unit('empty', {'C01', 'C02'}),
+    method_unit('empty', {'C01', 'C02', 'C07', 'C17'}),
     method_unit('prepare_read', {'C01', 'C02'}),
     method_unit('finish_read', {'C01'}),
     method_unit('commit_read', {'C01', 'C09'}),
